@@ -394,6 +394,26 @@ class Spec:
     def of_real(cls, pp, r):
         return cls.of_state(extract_state(pp, r))
 
+    @classmethod
+    def of_start(cls, pp, d):
+        """oracle for start descriptors: `ParseResults(existing, name, asList, modal)` is computed here (the name gets
+        one more value, becomes list-all iff not modal, everything else is kept: PP.PR.reinit_refines); parse results
+        and fresh constructor calls are read off the real object"""
+        if "reinit" in d:
+            st, name, as_list, modal = d["reinit"]
+            sp = cls.of_start(pp, st)
+            if name is None or name == "":
+                return sp
+            name = str(name)
+            if not modal:
+                sp.la.add(name)
+            if as_list:
+                sp.names.setdefault(name, []).append([Sym("pr"), list(sp.toks), []])
+            elif sp.toks:
+                sp.names.setdefault(name, []).append(sp.toks[0])
+            return sp
+        return cls.of_real(pp, build_start(pp, d))
+
     def view(self, n):
         if n not in self.names:
             raise KeyError(n)
@@ -477,7 +497,7 @@ class Spec:
             t.extend(vs(x) for x in op[1])
             return none
         if k in ("extendpr", "iadd"):
-            self.merge(Spec.of_real(pp, build_start(pp, op[1])))
+            self.merge(Spec.of_start(pp, op[1]))
             return none
         if k == "clear":
             t.clear()
@@ -509,7 +529,7 @@ def run_spec(pp, start, ops):
         r = build_start(pp, start)
     except ERRS as e:
         return [Sym("ctor-err"), Sym(type(e).__name__)]
-    sp = Spec.of_real(pp, r)
+    sp = Spec.of_start(pp, start)
     trace = [[Sym("start")] + sp.views()]
     for op in ops:
         try:
